@@ -139,6 +139,75 @@ def check_tree(text, tree, label, report):
     return spans
 
 
+IDENT = re.compile(r"[A-Za-z_][A-Za-z0-9_]*$")
+
+
+def check_queries(text, tree, rows, label, report, stats):
+    """C14 for what the language services report (hover, go-to-definition, find-references, folding ranges), queried at
+    EVERY position of the document through the public API:
+      Q1  a reported range is a range of the syntax tree (so I1-I6 hold for it);
+      Q2  the hover range contains the queried position and is the innermost such range: no node strictly inside it
+          contains the position (half-open, so that the position just behind a name still belongs to the name);
+      Q3  a reference is either the range of the definition or covers exactly an identifier, and the identifiers of one
+          answer are spelled alike (a reference to `Box` in `Box<int>` covers `Box`)."""
+    nodes = []
+    _walk(tree, (), lambda n, p: nodes.append(n))
+    by_range = {}
+    for n in nodes:
+        by_range.setdefault(tuple(n["l"]), []).append(n)
+    lines = text.split("\n")
+
+    def txt(a):
+        return lines[a[0]][a[1]:a[3]] if a[0] == a[2] and a[0] < len(lines) else None
+
+    for r in rows:
+        if "p" not in r:
+            for f in r.get("folding", []):
+                stats["folding_ranges"] += 1
+                if tuple(f) not in by_range:
+                    report("Q1 a folding range is not a range of the syntax tree", label, "folding range at %s" % f)
+            continue
+        p = tuple(r["p"])
+        h = r["hover"]
+        if h is not None:
+            stats["hovers"] += 1
+            s, e = (h[0], h[1]), (h[2], h[3])
+            if tuple(h) not in by_range:
+                report("Q1 the hover range is not a range of the syntax tree", label, "hover at %d:%d reports %s (%r)" % (p[0], p[1], h, txt(h)))
+            elif not (s <= p <= e):
+                report("Q2 the hover range does not contain the queried position", label, "hover at %d:%d reports %s" % (p[0], p[1], h))
+            else:
+                for n in nodes:
+                    ns, ne = (n["l"][0], n["l"][1]), (n["l"][2], n["l"][3])
+                    if s <= ns and ne <= e and (ns, ne) != (s, e) and ns <= p < ne and n["k"] != "module":
+                        report("Q2 the hover range is not the innermost range at the position", label,
+                               "hover %s reports %s (%r) although %s at %s (%r) contains the position" % (by_range[tuple(h)][0]["k"], h, txt(h), n["k"], n["l"], txt(n["l"])))
+                        break
+        d = r["def"]
+        if d is not None and d["same"]:
+            stats["definitions"] += 1
+            if tuple(d["l"]) not in by_range:
+                report("Q1 a definition range is not a range of the syntax tree", label, "definition from %d:%d at %s" % (p[0], p[1], d["l"]))
+        names = set()
+        for ref in r["refs"]:
+            if not ref["same"]:
+                continue
+            stats["references"] += 1
+            a = ref["l"]
+            if tuple(a) not in by_range:
+                report("Q1 a reference range is not a range of the syntax tree", label, "reference from %d:%d at %s" % (p[0], p[1], a))
+                continue
+            if d is not None and d["same"] and a == d["l"]:
+                continue
+            t = txt(a)
+            if t is None or not IDENT.match(t):
+                report("Q3 a reference does not cover exactly a name", label, "%s at %s covers %r" % (by_range[tuple(a)][0]["k"], a, t))
+            else:
+                names.add(t)
+        if len(names - {"this"}) > 1:
+            report("Q3 the references of one answer spell different names", label, "references from %d:%d: %s" % (p[0], p[1], sorted(names)))
+
+
 def programs():
     out = []
     for d in ("corpus", "corpus_laws", "corpus_spec"):
@@ -161,7 +230,8 @@ def repo_programs(sc):
 
 def run(res, tier):
     from vlib import ws
-    stats = {"programs": 0, "parses": 0, "nodes": 0, "names": 0, "layouts": LAYOUTS, "skipped_non_ascii": 0, "violations": 0}
+    stats = {"programs": 0, "parses": 0, "nodes": 0, "names": 0, "layouts": LAYOUTS, "skipped_non_ascii": 0, "violations": 0,
+             "programs_queried": 0, "positions_queried": 0, "hovers": 0, "definitions": 0, "references": 0, "folding_ranges": 0}
     seen = set()
 
     def report(kind, label, detail):
@@ -208,6 +278,18 @@ def run(res, tier):
                         stats["names"] += 1 if n.get("n") is not None else 0
                     _walk(o["tree"], (), cnt)
                     ref = spans
+                    if not name.startswith(("tests/", "std/")) and (tier != "quick" or name.startswith("corpus/")):
+                        pq = drv.call(["queries", p], check=False, timeout=600)
+                        try:
+                            rows = [json.loads(x) for x in pq.stdout.split("\n") if x.strip()]
+                            assert rows and "folding" in rows[-1]
+                        except Exception:
+                            res.inconc("syntax ranges: the services queries on %s gave no answer: %s" % (name, (pq.stdout[-100:] + pq.stderr)[-200:]))
+                            rows = []
+                        if rows:
+                            stats["programs_queried"] += 1
+                            stats["positions_queried"] += len(rows) - 1
+                            check_queries(t, o["tree"], rows, label, report, stats)
                     if tier == "quick" and name.startswith(("tests/", "std/")):
                         break  # the repository's own programs: original layout only in the quick tier
                 elif ref is not None:
